@@ -23,7 +23,7 @@
    probe arrives; (3) covers every schedule but assumes the environment cooperates and the interrupted attempt is younger
    than the MPP timeout (the aged case is (2)'s exception); attempt ids are assumed fresh (nanosecond timestamps in the code). *)
 From Tramp Require Import Model.Base Model.Fee Model.Classify Model.Node Model.Provider Model.ProviderSys Model.Sys.
-From Tramp Require Import Proofs.SysBasics Proofs.SysShape Proofs.SysTheorems Proofs.SysReach Proofs.SysCalls Proofs.SysNode Proofs.SysSafety Proofs.SysRecover Proofs.SysCoop.
+From Tramp Require Import Proofs.SysBasics Proofs.SysShape Proofs.SysTheorems Proofs.SysReach Proofs.SysCalls Proofs.SysNode Proofs.SysSafety Proofs.SysRecover Proofs.SysLive Proofs.SysTerm Proofs.SysCoop Proofs.SysAccount.
 
 Theorem C09_crash_image_is_a_start_image : forall c n t0 h0 a0 evs,
   node_ok n -> hist_wf false c (sys_start n t0 h0 a0) evs ->
@@ -72,6 +72,35 @@ Theorem C09_cooperative_runs_never_fail : forall c B Dl n t0 h0 a0 evs,
   forall o h m, In o (snd (run c (sys_start n t0 h0 a0) evs)) -> ~ In (OResp h (Fail m)) o.
 Proof. intros c B Dl n t0 h0 a0 evs Hm. exact (coop_runs_never_fail c B Dl Hm n t0 h0 a0 evs). Qed.
 
+(* ... and the composition: a cooperative history in which the HTLC [h] arrives (after [pre]) and no crash follows it, and which
+   has NOTHING LEFT TO DO at its end (no contract-respecting progress event changes the state any more: C06's notion of rest), has
+   written a response for [h], and that response settles it. No schedule, fairness or bound is assumed: the history IS the
+   schedule. (An HTLC followed by a crash is replayed by the node: a new arrival, to which the same theorem applies.) *)
+Theorem C09_cooperative_run_at_rest_has_settled_everything : forall c B Dl n t0 h0 a0 pre h post,
+  mpp_ms c <> 0 -> node_ok n ->
+  (forall a, mem_att a (atts n) = true -> a < a0) ->
+  (forall a t g, ds n = Some (DPending a t, g) -> a < a0 /\ t0 - t < mpp_ms c) ->
+  let evs := pre ++ EvHtlc h :: post in
+  hist_wf true c (sys_start n t0 h0 a0) evs -> Forall (ev_coop c B Dl) evs -> ~ In EvCrash post ->
+  let s := after c n t0 h0 a0 evs in
+  (forall ev, progress_ev s ev = true -> ev_wf true s ev -> ~ seffective c s ev) ->
+  exists o pr, In o (snd (run c (sys_start n t0 h0 a0) evs)) /\ In (OResp (hid h) (Resolve pr)) o.
+Proof.
+  intros c B Dl n t0 h0 a0 pre h post Hm Hn Ha Hd evs Hwf Hco Hnc s Hrest.
+  assert (He : entry_ (pl s) = None) by exact (at_rest_means_all_answered c s (after_wreach true c n t0 h0 a0 evs Hn Hwf) Hrest).
+  pose proof (coop_runs_only_settle c B Dl Hm n t0 h0 a0 evs Hn Ha Hd Hwf Hco) as Hset.
+  unfold s, after in He. unfold evs in He, Hset |- *. rewrite run_app in He, Hset |- *.
+  destruct (run c (sys_start n t0 h0 a0) pre) as [s1 o1].
+  pose proof (run_account c (EvHtlc h :: post) s1 h (or_intror (or_introl eq_refl))) as Hacc.
+  destruct (run c s1 (EvHtlc h :: post)) as [s2 o2]. cbn [fst snd] in *.
+  destruct Hacc as [Hin|[(o & r & Ho & Hr)|[Hc|Hc]]].
+  - rewrite He in Hin. destruct Hin.
+  - assert (Ho' : In o (o1 ++ o2)) by (apply in_or_app; right; exact Ho).
+    destruct (Hset o (hid h) r Ho' Hr) as (pr & ->). exists o, pr. split; assumption.
+  - discriminate.
+  - contradiction.
+Qed.
+
 (* one cooperative step: the invariant K is kept and nobody is failed, from every state reachable under the contract *)
 Theorem C09_cooperative_step : forall c B Dl s ev,
   mpp_ms c <> 0 -> wreach true c s -> K c B Dl s -> ev_coop c B Dl ev ->
@@ -94,6 +123,33 @@ Proof.
   - vm_compute. repeat split; auto.
   - repeat (constructor; [vm_compute; auto; try (eexists; reflexivity)|]). constructor.
   - intros a t g H. inversion H; subst. vm_compute. split; reflexivity.
+Qed.
+
+(* ... and the hypotheses of the composition are satisfiable: the same history, continued by the lifecycle's bookkeeping writes, is at
+   rest (no progress event changes the state), cooperative, and contains no crash *)
+Example C09_cooperative_at_rest_nonvacuous :
+  let c := {| mpp_ms := 60000; pol := {| fee_base := 0; fee_ppm := 0; pol_delta := 40 |}; cltv_delta := 6; retry_for := 60 |} in
+  let h := {| hid := 7; blob := [1]; deliver := 10; inv_amount := Some 10; amt := 10; total := 10; expiry := 1000; rel := 100%Z |} in
+  let n := {| ds := Some (DPending 3 1000, 0); atts := []; parts := []; payrun := 0 |} in
+  let post := tl (recover_schedule h) ++ pay_schedule_from 5 0 [9] ++ [EvProcess 8 NoFault; EvDeliver 8 true; EvProcess 9 NoFault; EvDeliver 9 true] in
+  let evs := [] ++ EvHtlc h :: post in
+  hist_wf true c (sys_start n 2000 0 4) evs /\ Forall (ev_coop c [1] 10) evs /\ ~ In EvCrash post /\
+  (forall ev, progress_ev (after c n 2000 0 4 evs) ev = true -> ev_wf true (after c n 2000 0 4 evs) ev -> ~ seffective c (after c n 2000 0 4 evs) ev) /\
+  ds (nd (after c n 2000 0 4 evs)) = Some (DSucc [9], 3).
+Proof.
+  cbv zeta. split; [|split; [|split; [|split]]].
+  - vm_compute. repeat split; auto.
+  - repeat (constructor; [vm_compute; auto; try (eexists; reflexivity)|]). constructor.
+  - vm_compute. intros H. repeat (destruct H as [H|H]; [discriminate|]). exact H.
+  - match goal with |- forall ev, progress_ev ?s0 ev = true -> _ => remember s0 as sF eqn:HsF end.
+    vm_compute in HsF. subst sF. intros ev Hp _ Hne. apply Hne. clear Hne.
+    destruct ev as [h1|sel|cid f|cid sel|pid st|cid|cid o|dt|h1|]; try discriminate Hp.
+    + reflexivity.
+    + do 11 (destruct cid as [|cid]; [reflexivity|]). reflexivity.
+    + do 11 (destruct cid as [|cid]; [reflexivity|]). reflexivity.
+    + destruct pid as [|[|pid]]; destruct st; reflexivity.
+    + do 11 (destruct cid as [|cid]; [reflexivity|]). reflexivity.
+  - vm_compute. reflexivity.
 Qed.
 
 (* the cases, each with its schedule *)
